@@ -139,6 +139,39 @@ theorem c14_reachable_nodup (ops : List Op) : (((run init ops).1).eps.map (·.na
   obtain ⟨a', h'⟩ := this init Abs.init sim_init ops
   exact h'.nodup
 
+/-- every reachable state of the C03 model is in simulation with some abstract state (the hypothesis `Sim s a` below is
+    satisfiable by, and only talks about, reachable states: `a.servers` is the server list of the last Sync) -/
+theorem c14_reachable_sim (ops : List Op) : ∃ a, Sim (run init ops).1 a := by
+  have : ∀ (s : State) (a : Abs), Sim s a → ∀ ops, ∃ a', Sim (run s ops).1 a' := by
+    intro s a h ops
+    induction ops generalizing s a with
+    | nil => exact ⟨a, by simpa [run] using h⟩
+    | cons op ops ih =>
+      obtain ⟨a', h'⟩ := ih _ _ (sim_step h op).2
+      exact ⟨a', by simpa [run] using h'⟩
+  exact this init Abs.init sim_init ops
+
+/-- **a Sync that does not change the server list keeps the ready set stable and leaves the cursors alone**: same endpoint
+    names with the same disabled marks (order, duplicates, dispatch policies, logging, flow control, annotations may all
+    differ, or nothing at all — an informer resync): no endpoint object changes and no cursor is reset. -/
+theorem c14_resync_keeps_cursors {s : State} {a : Abs} (h : Sim s a) (servers : List Server) (policies : List (List Name))
+    (hs : sameServers a.servers servers) :
+    (sync s servers policies).eps = s.eps ∧ (sync s servers policies).lb = s.lb := by
+  obtain ⟨e1, e2⟩ := resync_noop h servers hs
+  exact ⟨by simpa [sync] using e1, by simpa [sync] using e2⟩
+
+/-- **strict round-robin over a window with Syncs in it**: `N` picks over the same upstream list, with any number of Syncs
+    that leave the server list unchanged arriving anywhere in between (also after every single pick): every ready endpoint
+    is still chosen `⌊N/k⌋` or `⌈N/k⌉` times over the whole window. -/
+theorem c14_strict_across_resyncs {s : State} {a : Abs} (h : Sim s a) (events : List Event) (us : List Name) (N : Nat)
+    (hpicks : picksOf events = List.replicate N us)
+    (hev : ∀ sv pl, Event.sync sv pl ∈ events → sameServers a.servers sv) (e : EP)
+    (hk : 2 ≤ (readyList s.eps us).length) (hnd : ((readyList s.eps us).map EP.id).Nodup) (he : e ∈ readyList s.eps us)
+    (hwrap : lbGet s.lb ((readyList s.eps us).map EP.id) + N < 2 ^ 64) :
+    strictOK (readyList s.eps us).length N (countPicked e.name e.gen (runEvents s events).2) = true := by
+  rw [(runEvents_resyncs h events hev).1, hpicks]
+  exact c14_strict s.eps us N s.lb e hk hnd he hwrap
+
 /-- **concurrent pickers**: for every schedule (interleaving of the threads' atomic actions) that lets all `n` pickers
     finish, the order `log` of their atomic adds is a permutation of the pickers, each picker's result is exactly what the
     *sequential* `popMany` gives it in that order, and the cursors end where the sequential run ends — so the counting
@@ -197,6 +230,11 @@ example : (popMany eps3 [] [[[97], [98], [99]], [[99], [98], [97]], [[97], [98],
 /-- three pickers, interleaved: adds in the order 2, 0, 1; indexing in another order -/
 example : let sys := crun eps3 (List.replicate 3 [[97], [98], [99]]) (cinit [] 3) [2, 0, 0, 1, 2, 1]
     sys.log = [2, 0, 1] ∧ sys.pcs = [.done (.picked [99] 0), .done (.picked [97] 0), .done (.picked [98] 0)] := by decide
+/-- a Sync with the same servers (reordered, one listed twice) between the picks: the cursor goes on -/
+example : (runEvents (run init [.sync [⟨[97], false⟩, ⟨[98], false⟩, ⟨[99], false⟩] [[]], .probeFire [97] true, .probeFire [98] true, .probeFire [99] true]).1
+    [.pick [[97], [98], [99]], .sync [⟨[99], false⟩, ⟨[97], false⟩, ⟨[98], false⟩, ⟨[97], false⟩] [[[97]]], .pick [[97], [98], [99]],
+     .sync [⟨[97], false⟩, ⟨[98], false⟩, ⟨[99], false⟩] [], .pick [[97], [98], [99]]]).2
+    = [.picked [98] 0, .picked [99] 0, .picked [97] 0] := by decide
 /-- the wrap of the `uint64` cursor is what the hypothesis `… < 2^64` excludes: 3 does not divide 2^64 -/
 example : (popMany eps3 [([ea.id, eb.id, ec.id], 2 ^ 64 - 2)] (List.replicate 3 [[97], [98], [99]])).1
     = [.picked [97] 0, .picked [97] 0, .picked [98] 0] := by decide
